@@ -275,6 +275,9 @@ Section WithDigest.
     | QGetHashesW local ps alg infos wp _ t =>
         (local = true -> infos_current (w_fs w) infos) /\
         Fresh (with_db w (snd (get_hashes H (w_db w) local (the_fs w local) ps alg infos))) wp t
+    | QHashFileW local p alg i _ t =>
+        (local = true -> info_current (w_fs w) p (Some i)) /\
+        Fresh (with_db w (snd (hash_file H (w_db w) local (the_fs w local) p alg (Some i)))) p t
     | IBuild _ | IMd5 _ _ | IUpdate _ => True
     end.
 
@@ -327,6 +330,8 @@ Section WithDigest.
     - intros Hb ->. now apply infos_current_b_sound.
     - intros Hb. apply andb_true_iff in Hb as [H1 H2]. split; [|now apply fresh_b_sound].
       intros ->. now apply infos_current_b_sound.
+    - intros Hb. apply andb_true_iff in Hb as [H1 H2]. split; [|now apply fresh_b_sound].
+      intros ->. now apply info_current_b_sound.
   Qed.
 
   Lemma ticks_b_sound : forall h w, ticks_b H w h = true -> Ticks w h.
@@ -659,6 +664,7 @@ Section WithDigest.
     | OHashesDuring local alg l wp =>
         (* the file rewritten during the query may be described in either version; all the others are current *)
         forall p x, In (p, x) l -> p <> wp -> hashes_to (the_fs w local) p alg x
+    | OHashDuring _ _ _ _ => True     (* the answer may describe either version of the rewritten file *)
     | OMd5 alg i =>
         IdxInv (w_fs w) i /\
         forall p e, In (p, e) i -> is_dir_entry e = false ->
@@ -679,6 +685,14 @@ Section WithDigest.
      between the hashing and the save: a write during the query is a write after the query *)
   Lemma during_walk_is_sequential db local fs ps alg infos wp fnew :
     get_hashes_during H AtWalk db local fs ps alg infos wp fnew = get_hashes H db local fs ps alg infos.
+  Proof. reflexivity. Qed.
+
+  Lemma hash_during_walk_is_sequential db local fs p alg i fnew :
+    hash_file_during H AtWalk db local fs p alg i fnew = hash_file H db local fs p alg (Some i).
+  Proof. reflexivity. Qed.
+
+  Lemma step_inquery_single_is_sequential w local p alg i b t :
+    fst (step H w (QHashFileW local p alg i b t)) = exec H w [QHashFile local p alg (Some i); Write p b t].
   Proof. reflexivity. Qed.
 
   Lemma step_inquery_is_sequential w local ps alg infos wp b t :
@@ -738,6 +752,15 @@ Section WithDigest.
       destruct (proj2 (H3 l eq_refl) p x Hin) as [f [Hf Hx]]. exists f. split; [|exact Hx].
       destruct local; cbn [the_fs with_fs w_fs w_mem with_db] in *; [|exact Hf].
       now rewrite lookup_set_other.
+    - (* QHashFileW: hash_file with the supplied info, then the write *)
+      cbn [fst snd]. rewrite hash_during_walk_is_sequential. destruct Ht as [Hc Hfr].
+      assert (Hpre : local = true -> DbInv (the_fs w local) (w_db w) /\ info_current (the_fs w local) p (Some i)).
+      { intros ->. split; [exact (proj1 HI)|now apply Hc]. }
+      destruct (hash_file_sound (w_db w) local (the_fs w local) p alg (Some i) Hpre) as [H1 [H2 _]].
+      set (r := hash_file H (w_db w) local (the_fs w local) p alg (Some i)) in *.
+      assert (HI1 : Inv (with_db w (snd r))).
+      { apply with_db_inv; [assumption|]. destruct local; [now apply H1|rewrite H2 by reflexivity; exact (proj1 HI)]. }
+      split; [exact (mutate_inv (with_db w (snd r)) p t b HI1 Hfr)|exact I].
     - (* IBuild *) cbn [fst snd]. split.
       + apply with_slot_inv; [assumption|apply idx_build_inv].
       + cbn [out_ok]. destruct s; cbn; apply idx_build_inv.
@@ -789,6 +812,16 @@ Section WithDigest.
     Inv w -> tick_ok w (QGetHashesW local ps alg infos wp b t) ->
     let w' := fst (step H w (QGetHashesW local ps alg infos wp b t)) in
     w' = exec H w [QGetHashes local ps alg infos; Write wp b t] /\ Inv w' /\
+    forall h, Ticks w' h -> Forall (fun wo => out_ok (fst wo) (snd wo)) (run H w' h).
+  Proof.
+    intros HI Ht w'. split; [reflexivity|]. destruct (step_inv w _ HI Ht) as [HI' _].
+    split; [exact HI'|]. intros h HT. exact (proj1 (never_stale_from h w' HI' HT)).
+  Qed.
+
+  Theorem inquery_write_safe_single w local p alg i b t :
+    Inv w -> tick_ok w (QHashFileW local p alg i b t) ->
+    let w' := fst (step H w (QHashFileW local p alg i b t)) in
+    w' = exec H w [QHashFile local p alg (Some i); Write p b t] /\ Inv w' /\
     forall h, Ticks w' h -> Forall (fun wo => out_ok (fst wo) (snd wo)) (run H w' h).
   Proof.
     intros HI Ht w'. split; [reflexivity|]. destruct (step_inv w _ HI Ht) as [HI' _].
@@ -1065,6 +1098,32 @@ Proof.
   specialize (Hdb _ _ Hin {| f_tok := T 10 101 1; f_bytes := [98] |} md5_name (toyH md5_name [97]) eq_refl eq_refl).
   discriminate.
 Qed.
+
+(* the single-file route with caller-supplied info: file 0 is REPLACED after it was read, before state.save *)
+Definition ex_inquery_single : list op :=
+  [ Create [0] [97] (T 10 100 1);
+    QHashFileW true [0] md5_name (T 10 100 1) [98;98] (T 12 101 2);
+    QGet true [0] None; QHashFile true [0] md5_name None; QGetMany true [[0]] [] ].
+
+Example ex_inquery_single_ok :
+  ticks_b toyH empty_world ex_inquery_single = true /\
+  nth 1 (outs ex_inquery_single) ONone = OHashDuring true [0] md5_name (Some (toyH md5_name [97])) /\
+  nth 2 (outs ex_inquery_single) ONone = OGet true [0] None /\
+  nth 3 (outs ex_inquery_single) ONone = OHash true [0] md5_name (Some (toyH md5_name [98;98])) /\
+  nth 4 (outs ex_inquery_single) ONone = OMany true [([0], Some (md5_name, toyH md5_name [98;98]))].
+Proof. vm_compute. repeat split. Qed.
+
+(* a re-stat at save time (state.save without the caller's info) records (new token, old digest): stale hit *)
+Example ex_savetime_single_refuted :
+  let fs := [([0], {| f_tok := T 10 100 1; f_bytes := [97] |})] in
+  let fnew := {| f_tok := T 12 101 2; f_bytes := [98;98] |} in
+  let fs' := set [0] fnew fs in
+  let db_save := snd (hash_file_during toyH AtSave [] true fs [0] md5_name (T 10 100 1) fnew) in
+  let db_walk := snd (hash_file_during toyH AtWalk [] true fs [0] md5_name (T 10 100 1) fnew) in
+  st_get db_save true fs' [0] None = Some (md5_name, toyH md5_name [97]) /\
+  st_get db_walk true fs' [0] None = None /\
+  fst (hash_file toyH db_walk true fs' [0] md5_name None) = Some (toyH md5_name [98;98]).
+Proof. vm_compute. repeat split. Qed.
 
 (* batches across the 999 boundary *)
 Example ex_batched_lengths :
